@@ -514,6 +514,7 @@ func extMutexLock(fr *frame, args []value) value {
 	i.block(func() bool { return !m.locked }, "Mutex.Lock")
 	m.locked = true
 	m.owner = i.sch.cur.id
+	i.raceAcquire(args[0].(*value))
 	return nil
 }
 
@@ -526,6 +527,7 @@ func extMutexTryLock(fr *frame, args []value) value {
 	}
 	m.locked = true
 	m.owner = i.sch.cur.id
+	i.raceAcquire(args[0].(*value))
 	return true
 }
 
@@ -537,9 +539,15 @@ func extMutexUnlock(fr *frame, args []value) value {
 		i.endPath()
 		panic(pathAbort{"crash", i.sch.crash})
 	}
+	i.raceRelease(args[0].(*value), false)
 	m.locked = false
 	i.yieldPoint("unlock")
 	return nil
+}
+
+type rwKey struct {
+	p *value
+	r bool
 }
 
 func (i *interpreter) rwOf(p *value) *rwState {
@@ -557,6 +565,8 @@ func extRWLock(fr *frame, args []value) value {
 	m := i.rwOf(args[0].(*value))
 	i.block(func() bool { return !m.writer && m.readers == 0 }, "RWMutex.Lock")
 	m.writer = true
+	i.raceAcquire(rwKey{args[0].(*value), false})
+	i.raceAcquire(rwKey{args[0].(*value), true})
 	return nil
 }
 
@@ -568,6 +578,7 @@ func extRWUnlock(fr *frame, args []value) value {
 		i.endPath()
 		panic(pathAbort{"crash", i.sch.crash})
 	}
+	i.raceRelease(rwKey{args[0].(*value), false}, false)
 	m.writer = false
 	i.yieldPoint("rwunlock")
 	return nil
@@ -579,6 +590,7 @@ func extRWRLock(fr *frame, args []value) value {
 	m := i.rwOf(args[0].(*value))
 	i.block(func() bool { return !m.writer }, "RWMutex.RLock")
 	m.readers++
+	i.raceAcquire(rwKey{args[0].(*value), false})
 	return nil
 }
 
@@ -590,10 +602,15 @@ func extRWRUnlock(fr *frame, args []value) value {
 		i.endPath()
 		panic(pathAbort{"crash", i.sch.crash})
 	}
+	i.raceRelease(rwKey{args[0].(*value), true}, true)
 	m.readers--
 	i.yieldPoint("runlock")
 	return nil
 }
+
+type wgKey struct{ p *value }
+type poolKey struct{ p *value }
+type atomKey struct{ p *value }
 
 func (i *interpreter) wgOf(p *value) *wgState {
 	m := i.side.wg[p]
@@ -608,6 +625,7 @@ func extWGAdd(fr *frame, args []value) value {
 	i := fr.i
 	i.yieldPoint("wg.add")
 	w := i.wgOf(args[0].(*value))
+	i.raceRelease(wgKey{args[0].(*value)}, true)
 	w.n += i.concretize(args[1], "wg.Add")
 	if schedDebug {
 		fmt.Fprintf(os.Stderr, "wg %p add %v -> %d (%s)\n", args[0], args[1], w.n, fr.caller.fn)
@@ -626,12 +644,14 @@ func extWGWait(fr *frame, args []value) value {
 		fmt.Fprintf(os.Stderr, "wg %p wait n=%d (%s)\n", args[0], w.n, fr.caller.fn)
 	}
 	i.block(func() bool { return w.n == 0 }, "WaitGroup.Wait")
+	i.raceAcquire(wgKey{args[0].(*value)})
 	return nil
 }
 
 func extPoolGet(fr *frame, args []value) value {
 	i := fr.i
 	p := args[0].(*value)
+	i.raceAcquire(poolKey{p})
 	ps := i.side.pool[p]
 	newFn := (*p).(structure)[len((*p).(structure))-1]
 	fresh := func() value {
@@ -662,6 +682,7 @@ func extPoolGet(fr *frame, args []value) value {
 func extPoolPut(fr *frame, args []value) value {
 	i := fr.i
 	p := args[0].(*value)
+	i.raceRelease(poolKey{p}, true)
 	if it, ok := args[1].(iface); ok && it.t == nil {
 		return nil
 	}
@@ -686,6 +707,9 @@ func (i *interpreter) smapOf(p *value) *omap {
 }
 
 func extSMapLoad(fr *frame, args []value) value {
+	fr.i.raceAcquire(atomKey{args[0].(*value)})
+	fr.i.inSyncMap = true
+	defer func() { fr.i.inSyncMap = false; fr.i.raceRelease(atomKey{args[0].(*value)}, true) }()
 	i := fr.i
 	i.yieldPoint("map.load")
 	m := i.smapOf(args[0].(*value))
@@ -696,6 +720,9 @@ func extSMapLoad(fr *frame, args []value) value {
 }
 
 func extSMapStore(fr *frame, args []value) value {
+	fr.i.raceAcquire(atomKey{args[0].(*value)})
+	fr.i.inSyncMap = true
+	defer func() { fr.i.inSyncMap = false; fr.i.raceRelease(atomKey{args[0].(*value)}, true) }()
 	i := fr.i
 	i.yieldPoint("map.store")
 	i.mapInsert(i.smapOf(args[0].(*value)), anyType, args[1], args[2])
@@ -703,6 +730,9 @@ func extSMapStore(fr *frame, args []value) value {
 }
 
 func extSMapLoadOrStore(fr *frame, args []value) value {
+	fr.i.raceAcquire(atomKey{args[0].(*value)})
+	fr.i.inSyncMap = true
+	defer func() { fr.i.inSyncMap = false; fr.i.raceRelease(atomKey{args[0].(*value)}, true) }()
 	i := fr.i
 	i.yieldPoint("map.loadorstore")
 	m := i.smapOf(args[0].(*value))
@@ -714,6 +744,9 @@ func extSMapLoadOrStore(fr *frame, args []value) value {
 }
 
 func extSMapDelete(fr *frame, args []value) value {
+	fr.i.raceAcquire(atomKey{args[0].(*value)})
+	fr.i.inSyncMap = true
+	defer func() { fr.i.inSyncMap = false; fr.i.raceRelease(atomKey{args[0].(*value)}, true) }()
 	i := fr.i
 	i.yieldPoint("map.delete")
 	i.mapDelete(i.smapOf(args[0].(*value)), anyType, args[1])
@@ -723,8 +756,10 @@ func extSMapDelete(fr *frame, args []value) value {
 func extSMapRange(fr *frame, args []value) value {
 	i := fr.i
 	i.yieldPoint("map.range")
+	i.raceAcquire(atomKey{args[0].(*value)})
 	m := i.smapOf(args[0].(*value))
 	snap := append([]omapEntry{}, m.entries...)
+	i.raceRelease(atomKey{args[0].(*value)}, true)
 	for _, e := range snap {
 		if e.dead {
 			continue
@@ -738,6 +773,9 @@ func extSMapRange(fr *frame, args []value) value {
 }
 
 func extSMapLen(fr *frame, args []value) value {
+	fr.i.raceAcquire(atomKey{args[0].(*value)})
+	fr.i.inSyncMap = true
+	defer func() { fr.i.inSyncMap = false; fr.i.raceRelease(atomKey{args[0].(*value)}, true) }()
 	fr.i.yieldPoint("map.len")
 	return fr.i.smapOf(args[0].(*value)).len()
 }
@@ -760,9 +798,21 @@ func atomicCell(a value) *value {
 	panic(engineError(fmt.Sprintf("atomic op on %T", a)))
 }
 
+func (i *interpreter) atomicBegin(p *value) {
+	i.raceAcquire(atomKey{p})
+	i.inAtomic = true
+}
+
+func (i *interpreter) atomicEnd(p *value) {
+	i.inAtomic = false
+	i.raceRelease(atomKey{p}, true)
+}
+
 func extAtomicAdd(fr *frame, args []value) value {
 	fr.i.yieldPoint("atomic.add")
 	p := atomicCell(args[0])
+	fr.i.atomicBegin(p)
+	defer fr.i.atomicEnd(p)
 	r := fr.i.binopAdd(*p, args[1])
 	fr.i.store(nil2int, p, r)
 	return r
@@ -779,18 +829,29 @@ func (i *interpreter) binopAdd(x, y value) value {
 
 func extAtomicLoad(fr *frame, args []value) value {
 	fr.i.yieldPoint("atomic.load")
-	return *atomicCell(args[0])
+	p := atomicCell(args[0])
+	fr.i.atomicBegin(p)
+	defer fr.i.atomicEnd(p)
+	if fr.i.race != nil && fr.i.race.on {
+		fr.i.raceAccess(p, false, true)
+	}
+	return *p
 }
 
 func extAtomicStore(fr *frame, args []value) value {
 	fr.i.yieldPoint("atomic.store")
-	fr.i.store(nil2int, atomicCell(args[0]), args[1])
+	p := atomicCell(args[0])
+	fr.i.atomicBegin(p)
+	defer fr.i.atomicEnd(p)
+	fr.i.store(nil2int, p, args[1])
 	return nil
 }
 
 func extAtomicSwap(fr *frame, args []value) value {
 	fr.i.yieldPoint("atomic.swap")
 	p := atomicCell(args[0])
+	fr.i.atomicBegin(p)
+	defer fr.i.atomicEnd(p)
 	old := *p
 	fr.i.store(nil2int, p, args[1])
 	return old
@@ -800,6 +861,11 @@ func extAtomicCAS(fr *frame, args []value) value {
 	i := fr.i
 	i.yieldPoint("atomic.cas")
 	p := atomicCell(args[0])
+	i.atomicBegin(p)
+	defer i.atomicEnd(p)
+	if i.race != nil && i.race.on {
+		i.raceAccess(p, false, true)
+	}
 	var eq value
 	if up, ok := (*p).(unsafePtr); ok {
 		eq = up.p == args[1].(unsafePtr).p
